@@ -385,6 +385,7 @@ func ruleC14(c *Ctx, r *Report) {
 	// the names on the path: a dotted key ("patient.SSN") names every field on the way, and a
 	// key that starts with '$' (operator, extended-JSON wrapper) names none
 	splitOK, dollarOK := false, true
+	earlyComponentExit := ""
 	nMatch := 0
 	allInstrs(matcher, func(i ssa.Instruction) {
 		call, ok := i.(*ssa.Call)
@@ -403,6 +404,15 @@ func ruleC14(c *Ctx, r *Report) {
 									if ld, ok := mc.Call.Args[1].(*ssa.UnOp); ok {
 										if ia, ok := ld.X.(*ssa.IndexAddr); ok && ia.X == l.Coll {
 											splitOK = true
+											// ... and nothing but a match ends the scan of the components
+											for _, eb := range l.Loop.earlyExits() {
+												ifi, isIf := eb.Instrs[len(eb.Instrs)-1].(*ssa.If)
+												onMatch := isIf && ifi.Cond == ssa.Value(mc) && len(eb.Succs) == 2 && !l.Loop.Body[eb.Succs[0]]
+												if !onMatch {
+													splitOK = false
+													earlyComponentExit = c.InstrPos(eb.Instrs[len(eb.Instrs)-1])
+												}
+											}
 										}
 									}
 								}
@@ -426,7 +436,7 @@ func ruleC14(c *Ctx, r *Report) {
 	})
 	r.Check(splitOK, "C14-R3", matcher.Name()+":dot-notation", c.Pos(matcher.Pos()),
 		"each element of the path is also split on '.' and every component is matched: {\"patient.SSN\": ...} is under the names patient and SSN",
-		"a dotted key is matched as one string only: with an anchored expression such as ^SSN$ the literal under {\"patient.SSN\": ...} stays in clear although the field SSN is on its path")
+		"a dotted key is matched as one string only, or the scan of its components can end before a match ("+earlyComponentExit+"): with an anchored expression such as ^SSN$ the literal under {\"patient.SSN\": ...} / {\"contacts.$.SSN\": ...} stays in clear although the field SSN is on its path")
 	r.Check(dollarOK && nMatch > 0, "C14-R3", matcher.Name()+":operators-are-not-names", c.Pos(matcher.Pos()),
 		"every application of the expression is guarded by 'the key does not start with $': operators and extended-JSON wrappers are not field names",
 		"operator names and extended-JSON wrapper keys ($oid, $date, $in ...) are matched against the expression as if they were field names: an expression such as (?i)id$ redacts every ObjectId although no field name matches")
